@@ -115,7 +115,10 @@ func intern(t *Term) *Term {
 }
 
 // Sym declares (or returns) a free constant symbol.
+var symSafe = strings.NewReplacer("[", "<", "]", ">", "{", "<", "}", ">", " ", "_", ";", "_", ",", "_", "(", "<", ")", ">", "|", "_", "\\", "_", "\"", "_")
+
 func Sym(name string, s Sort) *Term {
+	name = symSafe.Replace(name)
 	t := intern(&Term{op: name, sort: s})
 	if _, ok := symDecls[name]; !ok {
 		symDecls[name] = t
